@@ -382,6 +382,22 @@ var makers = []func(d []byte) cid.Cid{
 	func(d []byte) cid.Cid {
 		return sumCid(cid.Prefix{Version: 1, Codec: cid.DagCBOR, MhType: mh.SHA2_512, MhLength: -1}, d)
 	},
+	// truncated digests: same version / codec / hash function as the makers above, other MhLength
+	func(d []byte) cid.Cid {
+		return sumCid(cid.Prefix{Version: 1, Codec: cid.Raw, MhType: mh.SHA2_256, MhLength: 20}, d)
+	},
+	func(d []byte) cid.Cid {
+		return sumCid(cid.Prefix{Version: 1, Codec: cid.Raw, MhType: mh.SHA2_256, MhLength: 28}, d)
+	},
+	func(d []byte) cid.Cid {
+		return sumCid(cid.Prefix{Version: 1, Codec: cid.DagProtobuf, MhType: mh.SHA2_256, MhLength: 20}, d)
+	},
+	func(d []byte) cid.Cid {
+		return sumCid(cid.Prefix{Version: 1, Codec: cid.DagCBOR, MhType: mh.SHA2_512, MhLength: 32}, d)
+	},
+	func(d []byte) cid.Cid {
+		return sumCid(cid.Prefix{Version: 1, Codec: cid.DagCBOR, MhType: mh.SHA2_512, MhLength: 20}, d)
+	},
 }
 
 func sumCid(p cid.Prefix, d []byte) cid.Cid {
